@@ -39,7 +39,13 @@ def mk_param(p):
             for k in ('start', 'end'):
                 if k in d:
                     naive = [t.tz_localize(None) if t.tzinfo is not None else t for t in d[k]]
-                    if da == 'date_range_D':
+                    if da == 'object_array_aware' and _TZ[0] is not None:
+                        # numpy array of dtype object holding aware time stamps (np.array(pd.date_range(.., tz=..)))
+                        arr_ = np.empty(len(naive), dtype=object)
+                        for i_, t_ in enumerate(naive):
+                            arr_[i_] = t_.tz_localize(_TZ[0])
+                        d[k] = arr_
+                    elif da == 'date_range_D':
                         # consecutive days as a date index WITH a frequency, in the zone of the grid (pd.date_range(.., freq='D', tz=..))
                         assert all((b - a) == pd.Timedelta(days=1) for a, b in zip(naive[:-1], naive[1:]))
                         d[k] = pd.date_range(start=naive[0], periods=len(naive), freq='D', tz=_TZ[0])
@@ -132,6 +138,10 @@ def mk_asset(a, pool, tz=None):
                   'capa': list(o['capa']), 'price': list(o['price'])}
         kw.pop('start', None)
         kw.pop('end', None)
+        if a.get('orders_as_frame'):
+            # the order list as a DataFrame carrying further columns (reference, comment) that are empty for some orders
+            n_ = len(orders['start'])
+            orders = pd.DataFrame(dict(orders, ref=['R%d' % i if i % 2 else None for i in range(n_)], comment=[None] * n_))
         k = a.get('created_with')
         if k:
             # the book is created with its first k orders and its order list is replaced afterwards (rolling intraday use)
